@@ -71,21 +71,86 @@ def judge(case):
                 v("float32-vs-float64", f"max abs diff {np.max(np.abs(a - b)[fin]):.3g} at scale {scale:.3g}")
     return {"nontrivial": accepted, "outcome": "accepted" if accepted else "rejected", "violations": viol}
 
+def seq_cases():
+    out = []
+    for dt in ("float32", "float64"):
+        for form in ("1d2", "1d3", "2d"):
+            for mom in (0.1, None):
+                for affine in (True, False):
+                    out.append({"op": "seq:bn_train_eval", "shapes": [], "args": {"dtype": dt, "form": form, "momentum": mom, "affine": affine}})
+        for opt in ("SGD", "SGDm", "Adam", "AdamW"):
+            out.append({"op": "seq:opt_step", "shapes": [], "args": {"dtype": dt, "opt": opt}})
+        out.append({"op": "seq:dropout_train_eval", "shapes": [], "args": {"dtype": dt}})
+    return out
+
+def judge_seq(case):
+    """dtype preservation across short stateful sequences (a later call sees state written by an earlier one)"""
+    sg = harness.load(); nn = sg.nn
+    A = case["args"]; dt = np.dtype(A["dtype"]); name = case["op"]
+    viol = []
+    def v(sym, detail):
+        k = f"{name}:{sym}"
+        if all(x["kind"] != k for x in viol): viol.append({"kind": k, "detail": detail})
+    def chk(what, t):
+        if t is not None and t.dtype != dt: v("dtype", f"{what} is {t.dtype}, layer / operands are {dt}")
+    try:
+        if name == "seq:bn_train_eval":
+            shape = {"1d2": (3, 2), "1d3": (3, 2, 2), "2d": (2, 2, 2, 2)}[A["form"]]
+            L = (nn.BatchNorm2d if A["form"] == "2d" else nn.BatchNorm1d)(2, momentum=A["momentum"], affine=A["affine"], dtype=dt.type)
+            x = values.generic(shape).astype(dt)
+            for step, mode in enumerate(("train", "train", "eval", "train", "eval")):
+                getattr(L, mode)()
+                xt = sg.Tensor(x.copy() + step, requires_grad=True)
+                y = L(xt); chk(f"output of forward #{step} ({mode})", y)
+                chk("running_mean", L.running_mean); chk("running_var", L.running_var)
+                y.backward(sg.Tensor(np.ones(y.shape, dtype=dt)))
+                chk(f"input gradient of forward #{step} ({mode})", xt.grad)
+                if A["affine"]: chk("gamma gradient", L.weight.grad); chk("beta gradient", L.bias.grad)
+        elif name == "seq:opt_step":
+            L = nn.Linear(3, 2)
+            L.weight.data = L.weight.data.astype(dt); L.bias.data = L.bias.data.astype(dt)
+            kw = {"SGD": dict(weight_decay=0.1), "SGDm": dict(momentum=0.9, nesterov=True), "Adam": dict(weight_decay=0.1), "AdamW": dict(weight_decay=0.1)}[A["opt"]]
+            opt = getattr(sg.optim, "SGD" if A["opt"].startswith("SGD") else A["opt"])(L.parameters(), lr=0.1, **kw)
+            x = values.generic((4, 3)).astype(dt)
+            for step in range(3):
+                y = L(sg.Tensor(x.copy())); chk(f"output after {step} steps", y)
+                loss = (y * y).sum(); chk("loss", loss)
+                opt.zero_grad(); loss.backward(); opt.step()
+                for nme, p in (("weight", L.weight), ("bias", L.bias)):
+                    chk(f"{nme} after step {step + 1}", p); chk(f"{nme}.grad", p.grad)
+                    if tuple(p.grad.shape) != tuple(p.shape): v("grad-shape", f"{nme}.grad shape {p.grad.shape}")
+        else:
+            L = nn.Dropout(0.5); x = values.generic((4, 3)).astype(dt)
+            for mode in ("train", "eval", "train"):
+                getattr(L, mode)()
+                xt = sg.Tensor(x.copy(), requires_grad=True); y = L(xt); chk(f"Dropout output ({mode})", y)
+                y.backward(sg.Tensor(np.ones(y.shape, dtype=dt))); chk(f"Dropout input gradient ({mode})", xt.grad)
+    except harness.HarnessError:
+        raise
+    except Exception as e:
+        v("raised", f"{type(e).__name__}: {str(e)[:100]}")
+    return {"nontrivial": True, "outcome": "ok", "violations": viol}
+
+def dispatch(case):
+    return judge_seq(case) if case["op"].startswith("seq:") else judge(case)
+
 def all_cases(tier):
-    return ct.cases(tier, "grad") + cn.cases(tier, "grad")
+    return ct.cases(tier, "grad") + cn.cases(tier, "grad") + seq_cases()
 
 def replay(case):
     with harness.quiet():
-        return judge(case)["violations"]
+        return dispatch(case)["violations"]
 
 def run(tier, seed):
     cases = all_cases(tier)
-    r = engine.run_cases(cases, judge)
+    r = engine.run_cases(cases, dispatch)
     cov = {"evaluations": r["evaluations"], "distinct_nontrivial": r["distinct_nontrivial"],
            "rule": "every case of the tensor-op and nn catalogues (the C01 and C02 lattices, incl. Python-scalar operands, every "
                    "broadcast pattern, 0-d results of full reductions / element indexing / reduced losses, layers and loss modules) "
                    "x operand dtype {float32,float64} x upstream-gradient dtype {float32,float64}: result dtype, .grad dtype and shape "
-                   "of every operand and of the root, float32 result within 2e-5*scale of the float64 result; non-trivial = accepted",
+                   "of every operand and of the root, float32 result within 2e-5*scale of the float64 result; plus short stateful sequences "
+                   "(BatchNorm train/eval forwards with buffers written by earlier calls, optimizer steps then forwards, Dropout mode "
+                   "switches) in both dtypes; non-trivial = accepted",
            "samples": r["samples"], "exhaustive": True, "outcomes": r["outcomes"]}
     return {"level": "exploration", "violations": r["violations"], "coverage": cov,
             "assumptions": ["all operands of a case share one floating dtype (mixed-dtype operands are outside the statement)",
